@@ -143,6 +143,36 @@ func TestC13(t *testing.T) {
 		e.Evals++
 		e.Count("startup_" + obs)
 	}
+	// start-up, what a cluster connection accepts: one-to-one lists without an empty name
+	for _, pairs := range [][][2]string{{{"a", "x"}, {"b", "x"}}, {{"a", "x"}, {"a", "y"}}, {{"a", "x"}, {"b", "y"}}, {{"a", ""}}, {{"", "x"}}, {{"a", "x"}, {"b", ""}},
+		{{"a", "b"}, {"b", "c"}}, {{"a", "b"}, {"b", "a"}}, {}} {
+		cfg := config.ClusterConnConfig{}
+		for _, p := range pairs {
+			cfg.NamespaceTranslation.Mappings = append(cfg.NamespaceTranslation.Mappings, config.StringMapping{Local: p[0], Remote: p[1]})
+		}
+		pp, err := startProxyPair(t, cfg)
+		obs := "ok"
+		if err != nil {
+			obs = "rejected"
+		} else {
+			pp.Stop()
+		}
+		op := "startup " + encMap(pairs)
+		e.Emit(op, obs)
+		e.Evals++
+		e.Count("startup_" + obs)
+		keys, vals := map[string]bool{}, map[string]bool{}
+		good := true
+		for _, p := range pairs {
+			if keys[p[0]] || vals[p[1]] || p[0] == "" || p[1] == "" {
+				good = false
+			}
+			keys[p[0]], vals[p[1]] = true, true
+		}
+		if good != (err == nil) {
+			e.Violation(map[string]any{"what": fmt.Sprintf("cluster connection with namespace mapping %v: one-to-one without empty names=%v but start-up error=%v", pairs, good, err), "ops": []string{op}})
+		}
+	}
 	// (2) exact-match lookup through the real translator, and round trips
 	maps := [][][2]string{
 		{{"local-ns", "remote-ns"}},
